@@ -1,4 +1,6 @@
 pub mod authz;
 pub mod batched;
+pub mod frontends;
+pub mod frontends_cli;
 pub mod hierarchy;
 pub mod policyset;
